@@ -230,6 +230,9 @@ func addrClassB(v ssa.Value, bind map[ssa.Value]ssa.Value) string {
 		if p, ok := v.(*ssa.Parameter); ok {
 			return "param:" + p.Name()
 		}
+		if b, ok := v.(*ssa.BinOp); ok && b.Op == token.ADD && b.Type().String() == "string" {
+			return "fmt:concat" // a string assembled by concatenation, like one assembled by Sprintf
+		}
 		return "?"
 	}
 	n := callName(call)
@@ -355,6 +358,10 @@ func keyPartsS(v ssa.Value, depth int, subst map[ssa.Value]ssa.Value) []kpart {
 				if y.Op == token.ADD {
 					return keyPartsS(y, depth+1, subst)
 				}
+			case *ssa.Call:
+				if strings.HasPrefix(callName(y), "strconv.") {
+					return keyPartsS(y, depth+1, subst)
+				}
 			}
 			return []kpart{{V: sx}}
 		}
@@ -404,6 +411,10 @@ func keyPartsS(v ssa.Value, depth int, subst map[ssa.Value]ssa.Value) []kpart {
 			}
 			return out
 		}
+	}
+	if call, ok := v.(*ssa.Call); ok && (callName(call) == "strconv.Itoa" || callName(call) == "strconv.FormatInt" || callName(call) == "strconv.FormatUint") && len(call.Call.Args) >= 1 {
+		// the decimal rendering of an integer is that integer as a key part (like %d)
+		return []kpart{{V: strip(call.Call.Args[0])}}
 	}
 	return []kpart{{V: v}}
 }
@@ -1601,7 +1612,18 @@ func runC03(c *Ctx) {
 			o.Fail(in.Pos(), "the translated datagram is pushed from a new goroutine: datagrams of one flow can overtake each other")
 		}
 		ex, ok := origin(cl.Common().Args[1]).(*ssa.Extract)
-		if !ok || tcall == nil || !sameOrigin(ex.Tuple, ssa.Value(tcall)) || ex.Index != 0 {
+		okRes := ok && tcall != nil && sameOrigin(ex.Tuple, ssa.Value(tcall)) && ex.Index == 0
+		if !okRes && tcall != nil {
+			// handed on by a helper that returns the translation's result or nil
+			if refs := tcall.Referrers(); refs != nil {
+				for _, rf := range *refs {
+					if te, isE := rf.(*ssa.Extract); isE && te.Index == 0 && sameOrigin(cl.Common().Args[1], ssa.Value(te)) {
+						okRes = true
+					}
+				}
+			}
+		}
+		if !okRes {
 			o.Fail(in.Pos(), "the router does not push the chunk returned by the inbound translation")
 		}
 		if !hasFact(in, func(ft fact) bool {
@@ -1625,10 +1647,12 @@ func runC03(c *Ctx) {
 	}) {
 		o.Site(in.Pos(), "pair lookup")
 		nilBlk := (*ssa.BasicBlock)(nil)
-		for _, b := range IN.Blocks {
-			for _, ft := range guardsOfBlock(b) {
-				if nilFact(ft, func(v ssa.Value) bool { return sameOrigin(v, ssa.Value(in.(*ssa.Call))) }, true) && len(b.Preds) == 1 {
-					nilBlk = b
+		for _, g := range unitOf(IN) {
+			for _, b := range g.Blocks {
+				for _, ft := range guardsOfBlockNoExpand(b) {
+					if nilFact(ft, func(v ssa.Value) bool { return sameOrigin(v, ssa.Value(in.(*ssa.Call))) }, true) && len(b.Preds) == 1 {
+						nilBlk = b
+					}
 				}
 			}
 		}
@@ -1772,6 +1796,11 @@ func resolveNATFields(p *Prog, r *natRoles) {
 					if fr, ok := asFieldLoad(lf); ok && fr.SName == mapT {
 						mMapped = fr.Field
 					}
+					for _, hv := range helperSuccessValues(lf) {
+						if fr, ok := asFieldLoad(hv.v); ok && fr.SName == mapT {
+							mMapped = fr.Field
+						}
+					}
 				}
 			}
 			if st, ok := in.(*ssa.Store); ok {
@@ -1789,6 +1818,11 @@ func resolveNATFields(p *Prog, r *natRoles) {
 				for _, lf := range phiLeaves(origin(in.(*ssa.Call).Call.Args[0])) {
 					if fr, ok := asFieldLoad(lf); ok && fr.SName == mapT {
 						mLocal = fr.Field
+					}
+					for _, hv := range helperSuccessValues(lf) {
+						if fr, ok := asFieldLoad(hv.v); ok && fr.SName == mapT {
+							mLocal = fr.Field
+						}
 					}
 				}
 			}
@@ -1858,6 +1892,7 @@ type rewriteEv struct {
 	call *ssa.Call
 	arg  ssa.Value
 	leaf phiLeaf
+	ret  *ssa.Return // the return of a private helper that hands this value back (nil: computed in place)
 }
 
 // has: the fact holds where the setter is called, or on the edge on which this value was chosen.
@@ -1871,7 +1906,12 @@ func (ev rewriteEv) has(pred func(fact) bool) bool {
 		}
 	}
 	if ev.leaf.pred != nil && len(ev.leaf.pred.Instrs) > 0 {
-		return hasFact(ev.leaf.pred.Instrs[len(ev.leaf.pred.Instrs)-1], pred)
+		if hasFact(ev.leaf.pred.Instrs[len(ev.leaf.pred.Instrs)-1], pred) {
+			return true
+		}
+	}
+	if ev.ret != nil {
+		return hasFact(ev.ret, pred)
 	}
 	return false
 }
@@ -1882,7 +1922,58 @@ func rewriteEvents(f *ssa.Function, setter string) []rewriteEv {
 		call := in.(*ssa.Call)
 		a := origin(call.Call.Args[0])
 		for _, lf := range phiLeavesWithPred(a) {
-			out = append(out, rewriteEv{call, lf.v, lf})
+			exp := helperSuccessValues(lf.v)
+			if len(exp) == 0 {
+				out = append(out, rewriteEv{call, lf.v, lf, nil})
+				continue
+			}
+			for _, hv := range exp {
+				out = append(out, rewriteEv{call, hv.v, lf, hv.ret})
+			}
+		}
+	}
+	return out
+}
+
+type helperValue struct {
+	v   ssa.Value
+	ret *ssa.Return
+}
+
+// helperSuccessValues: v is a result of a private helper with several returns (dst, err := n.inboundDestination(from)):
+// the values it hands back on the returns that do not report an error, each with its return instruction.
+func helperSuccessValues(v ssa.Value) []helperValue {
+	var call *ssa.Call
+	idx := 0
+	switch x := origin(v).(type) {
+	case *ssa.Call:
+		call = x
+	case *ssa.Extract:
+		call, _ = x.Tuple.(*ssa.Call)
+		idx = x.Index
+	}
+	if call == nil {
+		return nil
+	}
+	h := helperCallee(call)
+	if h == nil || idx >= h.Signature.Results().Len() {
+		return nil
+	}
+	var out []helperValue
+	for _, in := range findInstrs(h, isReturn) {
+		ret := in.(*ssa.Return)
+		if h.Recover != nil && ret.Block() == h.Recover {
+			continue
+		}
+		if e := errorOperand(ret); e != nil && !isNilConst(e) {
+			continue
+		}
+		rv := retValAt(ret, idx)
+		if len(rv) != 1 {
+			return nil
+		}
+		for _, lf := range phiLeaves(origin(rv[0])) {
+			out = append(out, helperValue{origin(lf), ret})
 		}
 	}
 	return out
